@@ -317,4 +317,31 @@ fn main() {
         let r = catch_unwind(AssertUnwindSafe(move || { let id = fb.finish_component(&mut c, ModuleID(0)); (id, c.encode()) }));
         match r { Ok((id, b)) => { println!("built function id {:?}", id); println!("{}", wasmprinter::print_bytes(&b).unwrap()); }, Err(_) => println!("finish_component PANICKED") }
     });
+    run("S26 component iterator: start state, components without work at the front, reset (C26)", || {
+        use wirm::iterator::component_iterator::ComponentIterator;
+        use std::collections::HashMap;
+        fn visit(it: &mut ComponentIterator) -> Vec<String> {
+            let mut v = vec![];
+            loop { if it.curr_op().is_some() { let (loc, _) = it.curr_loc(); v.push(format!("{:?}", loc)); } if it.next().is_none() { break; } }
+            v
+        }
+        // (a) no core module at all
+        let w = wat::parse_str(r#"(component)"#).unwrap();
+        let r = catch_unwind(AssertUnwindSafe(|| { let mut c = wirm::Component::parse(&w, false).unwrap(); let mut it = ComponentIterator::new(&mut c, HashMap::new()); it.curr_op().is_none() }));
+        println!("(a) component without modules: {:?}", r.map_err(|_| "PANIC"));
+        // (b) the first module has no function
+        let w = wat::parse_str(r#"(component (core module (memory 1)) (core module (func nop)))"#).unwrap();
+        let r = catch_unwind(AssertUnwindSafe(|| { let mut c = wirm::Component::parse(&w, false).unwrap(); let mut it = ComponentIterator::new(&mut c, HashMap::new()); visit(&mut it) }));
+        println!("(b) first module without functions: {:?} (expected the 2 instructions of module 1)", r.map_err(|_| "PANIC"));
+        // (c) reset after a traversal that ended in a module with a skip list
+        let w = wat::parse_str(r#"(component (core module (func nop) (func nop nop)) (core module (func nop) (func nop nop nop)))"#).unwrap();
+        let r = catch_unwind(AssertUnwindSafe(|| {
+            let mut c = wirm::Component::parse(&w, false).unwrap();
+            let mut skip = HashMap::new(); skip.insert(ModuleID(1), vec![FunctionID(0)]);
+            let mut it = ComponentIterator::new(&mut c, skip);
+            let first = visit(&mut it); it.reset(); let second = visit(&mut it);
+            (first.len(), second.len(), first == second)
+        }));
+        println!("(c) traversal, reset, traversal: {:?} (expected equal lengths, same)", r.map_err(|_| "PANIC"));
+    });
 }
